@@ -79,7 +79,8 @@ def _validate(ctx, behs, tag, max_rounds=3, envs=None):
             bi, chunk, off = vlib.locate_trace(rows, line)
             ev = rows[line - 1]
             what = "panic" if ev.get("panic") else ("tx-rejected" if not ev.get("ok") else "model-mismatch")
-            findings.append({"sig": "conf@%s:%s" % (ev.get("ev"), what), "beh": todo[bi], "env": tenv[bi], "line": off, "event": ev})
+            findings.append({"sig": "conf@%s:%s" % (ev.get("ev"), what), "beh": todo[bi], "env": dict(tenv[bi], at=chunk[0].get("at", 0)),
+                             "line": off, "event": ev})
             rejected = bi
             upto = line - off  # lines of the behaviours before the rejected one are fully validated
         for m in _VIOL.finditer(res["out"]):
@@ -88,7 +89,8 @@ def _validate(ctx, behs, tag, max_rounds=3, envs=None):
                 continue
             if kind == "VIOL":
                 bi, chunk, off = vlib.locate_trace(rows, ln)
-                findings.append({"sig": sig, "beh": todo[bi], "env": tenv[bi], "line": off, "event": rows[ln - 1]})
+                findings.append({"sig": sig, "beh": todo[bi], "env": dict(tenv[bi], at=chunk[0].get("at", 0)), "line": off,
+                                 "event": rows[ln - 1]})
             elif kind == "NOTE":
                 stats["notes"] += 1
             else:
